@@ -99,10 +99,44 @@ _COMPILED: Dict[Any, Any] = {}
 _KEEP: List[Any] = []      # keeps environments alive so that id(env) stays unique
 
 
+_SIBLINGS: Dict[Any, Any] = {}
+
+
+def _sibling_first(jp, env, q: str) -> None:
+    """Another environment INSTANCE of the same class, configured differently on the instance (other mode, other
+    limits, other integer range, another registry), sees the text first.  Environments are independent: nothing
+    it did (compiling, failing, evaluating) may change what the environment under observation does."""
+    target = env if env is not None else getattr(jp, "DEFAULT_ENV", None)
+    if target is None:
+        return
+    cls = type(target)
+    sib = _SIBLINGS.get(cls)
+    if sib is None:
+        try:
+            sib = cls()
+            sib.nondeterministic = not getattr(target, "nondeterministic", False)
+            sib.max_recursion_depth = 2
+            sib.min_int_index, sib.max_int_index = -4, 4
+            sib.function_extensions.pop("search", None)
+            sib.function_extensions["zzsib"] = sib.function_extensions.get("count")
+        except Exception:  # noqa: BLE001
+            sib = False
+        _SIBLINGS[cls] = sib
+    if sib is False:
+        return
+    try:
+        c = sib.compile(q)
+        c.find_one([{"a": [1, {"a": 2}], "b": "ab"}, 1])
+    except Exception:  # noqa: BLE001, S110
+        pass
+
+
 def rec_compile(jp, q: str, env=None, extra: Optional[Dict[str, Any]] = None) -> Dict[str, Any]:
     rec: Dict[str, Any] = {"op": "compile", "q": core.enc_text(q)}
     if extra:
         rec.update(extra)
+    if len(q) < 300:
+        _sibling_first(jp, env, q)
     try:
         _guarded((env or jp).compile, q)
         rec["out"] = "ok"
@@ -126,6 +160,8 @@ def rec_find(jp, q: str, doc, env=None, extra: Optional[Dict[str, Any]] = None,
     key = (id(env) if env is not None else 0, q)
     compiled = _COMPILED.get(key)
     if compiled is None:
+        if len(q) < 300:
+            _sibling_first(jp, env, q)
         try:
             compiled = _guarded((env or jp).compile, q)
         except Exception as err:  # noqa: BLE001
@@ -210,7 +246,7 @@ def rec_errpos(jp, q: str, env=None):
         return None
 
 
-def rec_str(jp, q: str, docs_enc, env=None, extra=None):
+def rec_str(jp, q: str, docs_enc, env=None, extra=None, docs=None):
     """str() round trip of a compiled query.  Returns None if q does not compile."""
     e = env or jp
     try:
@@ -232,6 +268,16 @@ def rec_str(jp, q: str, docs_enc, env=None, extra=None):
     except Exception:  # noqa: BLE001
         rec["recompiles"] = False
         rec["s2"] = []
+        return rec
+    # "the same query": the compiled original and the compiled serialisation behave alike on the witness documents
+    if docs is not None and not getattr(e if env else getattr(jp, "DEFAULT_ENV", None), "nondeterministic", False):
+        def res(cq, d):
+            try:
+                return ("ok", [tuple(n.location) for n in cq.find(d)])
+            except Exception as err:  # noqa: BLE001
+                return ("raise", type(err).__name__)
+
+        rec["same"] = all(res(c, d) == res(c2, d) for d in docs)
     return rec
 
 
